@@ -77,6 +77,17 @@ func runC14(c *ShardCtx) {
 			}
 		}
 	}
+	// two recovery operators in every arrangement (see twoRecoveryFamily)
+	for _, g := range twoRecoveryFamily(c.Thorough()) {
+		idx++
+		if !c.Mine(idx) {
+			continue
+		}
+		if c.Expired("two-operator family") {
+			return
+		}
+		runGrammar(c, g, fam)
+	}
 	for size := 1; size <= n; size++ {
 		for _, body := range en.Size(size) {
 			g0 := &peg.Grammar{Rules: []*peg.Rule{{Name: "S", Expr: body}}}
@@ -111,4 +122,51 @@ func runC14(c *ShardCtx) {
 		}
 	}
 	_ = core.Gen{}
+}
+
+// twoRecoveryFamily: grammars with TWO recovery operators in every arrangement - one after the
+// other, in two alternatives, nested in the guarded expression, nested in the recovery
+// expression, in a loop, and in two mutually recursive rules (an operator re-entered through
+// recursion while the other one is in force) - x every pair of label sets over {l, m} x guarded
+// expressions that throw l or m at the start / after a terminal / not at all x recovery
+// expressions that match, match empty, fail or throw again.
+func twoRecoveryFamily(thorough bool) []*peg.Grammar {
+	lit := peg.Lit
+	labelSets := [][]string{{"l"}, {"m"}, {"l", "m"}}
+	guards := []func() *peg.Expr{
+		func() *peg.Expr { return lit("a") }, func() *peg.Expr { return peg.Throw("l") }, func() *peg.Expr { return peg.Throw("m") },
+		func() *peg.Expr { return peg.Seq(lit("a"), peg.Throw("l")) }, func() *peg.Expr { return peg.Choice(lit("a"), peg.Throw("l")) }, func() *peg.Expr { return peg.Seq(lit("a"), peg.Choice(lit("a"), peg.Throw("m"))) },
+	}
+	recs := []func() *peg.Expr{func() *peg.Expr { return lit("b") }, func() *peg.Expr { return lit("") }, func() *peg.Expr { return peg.Throw("l") }, func() *peg.Expr { return peg.Any() }}
+	if !thorough {
+		recs = recs[:3]
+	}
+	var out []*peg.Grammar
+	for _, la := range labelSets {
+		for _, lb := range labelSets {
+			for gi, ga := range guards {
+				for gj, gb := range guards {
+					for ri, ra := range recs {
+						for rj, rb := range recs {
+							if !thorough && (gi+gj+ri+rj)%2 == 1 && gi != gj {
+								continue // quick: a systematic half of the mixed guard pairs
+							}
+							A := func() *peg.Expr { return peg.Recover(ga(), ra(), la...) }
+							B := func() *peg.Expr { return peg.Recover(gb(), rb(), lb...) }
+							out = append(out,
+								wrap(peg.Seq(A(), B())),
+								wrap(peg.Choice(peg.Seq(A(), lit("q")), B())),
+								wrap(peg.Recover(peg.Seq(ga(), B()), ra(), la...)),
+								wrap(peg.Recover(ga(), peg.Seq(B(), lit("b")), la...)),
+								wrap(peg.Star(peg.Choice(peg.Seq(A(), lit("b")), B()))),
+								// two rules, each with its operator, calling each other (re-entry through recursion)
+								wrap(peg.Ref("A"), &peg.Rule{Name: "A", Expr: peg.Recover(peg.Choice(peg.Seq(lit("a"), peg.Ref("B")), ga()), ra(), la...)}, &peg.Rule{Name: "B", Expr: peg.Recover(peg.Choice(peg.Seq(lit("b"), peg.Ref("A")), gb()), rb(), lb...)}),
+							)
+						}
+					}
+				}
+			}
+		}
+	}
+	return out
 }
